@@ -24,6 +24,7 @@ def actOfName (name : String) (arg : Option Int) : Option Act :=
   | "release", _ => some .release
   | "measure", some r => some (.measure r) | "amStatus", _ => some .amStatus | "amAppend", some r => some (.amAppend r)
   | "doneAtomic", _ => some .doneAtomic | "doneStatus", _ => some .doneStatus | "doneSet", _ => some .doneSet
+  | "doneFinal", _ => some .doneFinal | "fbSkip", _ => some .fbSkip
   | "fbAtomic", _ => some .fbAtomic | "fbRead", _ => some .fbRead | "fbWrite", _ => some .fbWrite
   | "skipAtomic", _ => some .skipAtomic | "skipStatus", _ => some .skipStatus | "skipSet", _ => some .skipSet
   | "completeAtomic", _ => some .completeAtomic | "cpComplR", _ => some .cpComplR | "cpComplW", _ => some .cpComplW
@@ -80,7 +81,7 @@ def cfgToJ (c : LockCfg) : J :=
         ("evolutionFeedbackAtomic", .bool c.evolutionFeedbackAtomic)]
 
 def pcTrial : PC → Option Nat
-  | .hold t | .amOk t | .doneOk t | .doneFb t | .doneFbW t | .doneCp t | .skipOk t
+  | .hold t | .amOk t | .doneOk t | .doneFin t | .doneFb t | .doneFbW t | .doneCp t | .skipOk t
   | .cpComplW t | .cpPendR t | .cpPendW t | .cpInf t | .cpBestR t | .cpBestW t => some t
   | .ctAppend t | .ctPendR t | .ctPendW t | .ctLatest t => some t
   | _ => none
